@@ -55,6 +55,7 @@ def _custom_generator(n, v, map_max, cap, dmax, max_start, full=False):
 class A(Adapter):
     name = "multi_cvrp"
     lean = "multi_cvrp"
+    float_additions = 20   # rewards and times are float32 sums over up to 5 vehicles x (two squares, a square root, an accumulation)
     serves = {"C01", "C04", "C05", "C06", "C08", "C09", "C10", "C11", "C12"}
     terminate_on_invalid = False
     max_steps = 110
